@@ -29,6 +29,8 @@ def args_for(unit, failure, tier='quick'):
         return ['c10-resolve']
     if unit.startswith('kani:contains_type_path') or unit == 'U-CONTAINS':
         return ['c11-contains']
+    if unit == 'U-VALIDATE':
+        return [['c11-validate'], ['c11-contains']] if item != 'registry_contains_type_path' else [['c11-contains'], ['c11-validate']]
     if unit == 'kani:primnames_table':
         return ['c13-primnames']
     m = re.match(r'kani:primex_([a-z0-9]+)', unit)
